@@ -187,6 +187,20 @@ func rebuild(m *model, tname string, mutate func(*table)) ([]string, *table) {
 	return stmts, nt
 }
 
+// readd is the model after column b of t was dropped and added back: b is the last column.
+func readd(m *model) *model {
+	n := m.clone()
+	nt := n.table("t")
+	for i, c := range nt.Cols {
+		if c.Name == "b" {
+			nt.Cols = append(nt.Cols[:i], nt.Cols[i+1:]...)
+			break
+		}
+	}
+	nt.Cols = append(nt.Cols, col{"b", "text", ""})
+	return n
+}
+
 // ops returns the evolutions applicable to m at step k, each with the resulting model.
 func ops(m *model, k int) (out []struct {
 	s    step
@@ -241,6 +255,11 @@ func ops(m *model, k int) (out []struct {
 			})
 			add(step{Op: "drop_column_rebuild", SQL: stmts, ViaDiff: true,
 				Expect: []expect{{"DS103", "b", []string{"CREATE TABLE `new_t`", "ALTER TABLE `t` DROP COLUMN `b`"}}}}, n)
+			// the column is dropped and a column of the same name added back in the same file: its data is gone.
+			add(step{Op: "drop_readd_column", SQL: []string{"ALTER TABLE `t` DROP COLUMN `b`", "ALTER TABLE `t` ADD COLUMN `b` text NULL"},
+				Expect: []expect{{"DS103", "b", []string{"ALTER TABLE `t` DROP COLUMN `b`"}}}}, readd(m))
+			add(step{Op: "rebuild_drop_readd_column", SQL: append(append([]string{}, stmts...), "ALTER TABLE `t` ADD COLUMN `b` text NULL"),
+				Expect: []expect{{"DS103", "b", []string{"CREATE TABLE `new_t`", "ALTER TABLE `t` DROP COLUMN `b`"}}}}, readd(m))
 		}
 		// change column type a integer -> text by rebuild: nothing lost
 		if c := t.col("a"); c != nil && c.Type == "integer" {
@@ -518,7 +537,7 @@ func Run(r *report.Run) {
 	if r.Tier == "thorough" {
 		depth = 3
 	}
-	r.Rule = fmt.Sprintf("BFS to depth %d over schema evolutions of a two-table SQLite schema (add table, add nullable column, add index, drop column by ALTER, drop column by table rebuild, drop table, change type by rebuild, add check by rebuild, drop VIRTUAL column, temporary table / temporary column inside one file, a rebuild directly followed by DROP TABLE, two rebuilds in one file); every history becomes a migration directory in which the last file is written by hand and, where the evolution can be expressed as a desired schema, also by the real `atlas migrate diff` (earlier files hand-written); x --latest N for every N<=depth; the real `atlas migrate lint` runs against a real SQLite dev database; states de-duplicated by the canonical schema model for expansion; non-trivial = every directory; distinct = (history, producer, N)", depth)
+	r.Rule = fmt.Sprintf("BFS to depth %d over schema evolutions of a two-table SQLite schema (add table, add nullable column, add index, drop column by ALTER, drop column by table rebuild, drop column (by ALTER / by rebuild) and add it back in the same file, drop table, change type by rebuild, add check by rebuild, drop VIRTUAL column, temporary table / temporary column inside one file, a rebuild directly followed by DROP TABLE, two rebuilds in one file); every history becomes a migration directory in which the last file is written by hand and, where the evolution can be expressed as a desired schema, also by the real `atlas migrate diff` (earlier files hand-written); x --latest N for every N<=depth; the real `atlas migrate lint` runs against a real SQLite dev database; states de-duplicated by the canonical schema model for expansion; non-trivial = every directory; distinct = (history, producer, N)", depth)
 	r.Assumptions = []string{
 		"a file is destructive iff it removes a table or a non-virtual column that existed before the file (reference model of the evolution)",
 		"for a table rebuild the diagnostic position is the first statement of the CREATE/INSERT/DROP/RENAME group, as sqlitecheck documents",
